@@ -1308,3 +1308,33 @@ def included(f_pattern, f_flags, r_pattern, r_flags, limit=200000):
                 if len(prev) > limit:
                     raise AnalysisError("inclusion test exceeded its state budget")
     return None
+
+
+def sample_words(pattern, flags, n, rng, max_len=60):
+    """Random members (and near-members) of L(pattern) by walking its
+    position automaton; used only to cross-validate Lang against re."""
+    A = Automaton(pattern, flags, peeks=False)
+    out = []
+    for _ in range(n * 3):
+        if len(out) >= n:
+            break
+        cur = 'START'
+        w = []
+        for _step in range(max_len):
+            succ = list(A.first if cur == 'START' else A.follow[cur])
+            stop = (cur != 'START' and cur in A.last) or (cur == 'START' and A.nullable)
+            if not succ or (stop and rng.random() < 0.3):
+                break
+            cur = rng.choice(sorted(succ))
+            chars = [A.alphabet[i] for i in sorted(A.pos_chars[cur]) if A.alphabet[i] != EOS]
+            if not chars:
+                break
+            # prefer plain ASCII letters/digits/space to keep words readable
+            plain = [c for c in chars if c.isascii()]
+            w.append(rng.choice(plain or chars))
+        word = ''.join(w)
+        out.append(word)
+        if word and rng.random() < 0.5:      # a near-miss: drop / double a char
+            i = rng.randrange(len(word))
+            out.append(word[:i] + word[i + 1:])
+    return out[:n * 2]
